@@ -1269,9 +1269,10 @@ class Filterbank(ABC):
             msg = f"Clean method must be 'mad' or 'iqrm', got {method}"
             raise ValueError(msg)
 
-        if self.chan_stats is None:
-            # 1st pass to compute channel statistics (upto kurtosis)
-            self.compute_stats(gulp=gulp, start=start, nsamps=nsamps, **plan_kwargs)
+        # 1st pass to compute channel statistics (upto kurtosis) of the range that
+        # is cleaned: statistics left from an earlier call may be of another range
+        # or hold only the first two moments
+        self.compute_stats(gulp=gulp, start=start, nsamps=nsamps, **plan_kwargs)
 
         if not isinstance(self.chan_stats, ChannelStats):
             msg = "Channel statistics not computed properly"
